@@ -217,7 +217,7 @@ impl Prop for C02 {
         let sp1 = take_spelling(t, 60);
         let sp2 = take_spelling(t, 60);
         let prog = {
-            let mut g = SynGen::new(t, SynCfg::default());
+            let mut g = SynGen::new(t, SynCfg { giant_chains: true, ..SynCfg::default() });
             g.program()
         };
         Case { prog, sp1, sp2 }
